@@ -75,6 +75,19 @@ def gen_cases(tier, seed):
             rules = intuniv.random_universe(rng)
             shape = "random"
         yield {"id": i, "shape": shape, "rules": rules, "order_seed": f"{seed}/C03/o/{i}"}
+    # the database level: real rule objects (integer universes as strategies, reversible rows,
+    # verification rows) inserted into RuleDBForest(reverse=True) in several orders
+    from vuniv import table
+
+    for i in range(SIZES[tier] // 4):
+        rng = intuniv.rng_for(seed, "C03/db", i)
+        tb = table.random_table(rng, p_empty=0.1)
+        if rng.random() < 0.5:
+            # more reversible wide rows (their reverse keys are what the database adds on its own)
+            for row in tb["rows"]:
+                if len(row[1]) >= 2 and rng.random() < 0.6:
+                    row[4] = True
+        yield {"id": f"d{i}", "kind": "forestdb", "table": tb, "order_seed": f"{seed}/C03/db/o/{i}"}
     if tier == "thorough":
         yield from gen_exhaustive()
 
@@ -122,7 +135,71 @@ def _key(rule):
     return ForestRuleKey(p, tuple(cs), tuple(sh), RuleBucket[b])
 
 
+def run_forestdb(case):
+    """RuleDBForest.add / is_verified / has_specification: the same rules in different orders.
+    Judged: what the database reports as verified depends on the set of rules only, and only
+    grows while rules are added (no oracle needed: the runs are compared with each other)."""
+    from comb_spec_searcher import CombinatorialSpecificationSearcher
+    from comb_spec_searcher.rule_db import RuleDBForest
+
+    from vuniv import table
+
+    cx = base.ctx()
+    tb = case["table"]
+    rng = intuniv.rng_for(case["order_seed"])
+    rows = [i for i, r in enumerate(tb["rows"])]
+    orders = [list(rows), list(reversed(rows))]
+    for _ in range(3):
+        o = list(rows)
+        rng.shuffle(o)
+        orders.append(o)
+    # verification rows last / first: a parent that is already verified when its wide rule arrives
+    orders.append(sorted(rows, key=lambda i: len(tb["rows"][i][1]) == 0))
+    orders.append(sorted(rows, key=lambda i: len(tb["rows"][i][1]) != 0))
+    finals = []
+    for order in orders:
+        m_table.reset()
+        pack = table.build_pack(tb)
+        db = RuleDBForest(reverse=True)
+        s = CombinatorialSpecificationSearcher(table.Lab(0), pack, ruledb=db)
+        labels = [s.classdb.get_label(table.Lab(x, x in tb["empties"])) for x in range(tb["n"])]
+        ver = table.TableVer([r[0] for r in tb["rows"] if len(r[1]) == 0])
+        before = set()
+        for i in order:
+            row = tb["rows"][i]
+            parent = table.Lab(row[0], row[0] in tb["empties"])
+            if parent.empty:
+                continue
+            if len(row[1]) == 0:
+                rule = ver(parent)
+            else:
+                rule = table.TableStrategy(tb["rows"], i, tb["empties"])(parent)
+            ends = tuple(s.classdb.get_label(c) for c in rule.children)
+            db.add(s.classdb.get_label(parent), ends, rule)
+            cx.count("c03.database_insertions")
+            now = {lab for lab in labels if db.is_verified(lab)}
+            if not before <= now:
+                cx.violation("C03:database-verified-set-shrinks",
+                             f"after inserting row {i} the labels {sorted(before - now)} are no longer verified",
+                             {"table": tb, "order": order})
+            before = now
+        finals.append((frozenset(before), bool(db.has_specification())))
+        cx.count("c03.database_orders_run")
+    for other, order in zip(finals[1:], orders[1:]):
+        cx.count("c03.database_order_pairs_compared")
+        if other != finals[0]:
+            cx.violation("C03:database-order-dependent",
+                         f"the same rules inserted in another order: verified {sorted(finals[0][0])} / specification "
+                         f"{finals[0][1]} versus verified {sorted(other[0])} / specification {other[1]}",
+                         {"table": tb, "orders": [orders[0], order]})
+    some = finals[0][0]
+    return {"nontrivial": 0 < len(some) < tb["n"] and any(r[4] and len(r[1]) >= 2 for r in tb["rows"]),
+            "fingerprint": fp(tb)}
+
+
 def run_case(case):
+    if case.get("kind") == "forestdb":
+        return run_forestdb(case)
     if case.get("kind") == "exhaustive":
         nt = False
         for j, rules in enumerate(case["multisets"]):
